@@ -328,30 +328,3 @@ pub(super) fn prefix_case<const N: usize>(prefix: &[u8], b: u8) {
     let s = unsafe { std::str::from_utf8_unchecked(&buf[..]) };
     assert!(lexer_agrees(&buf[..], s));
 }
-
-
-// ---- a name start followed by a non-ASCII character ------------------------------------------------------
-// Unchanged code never consults Unicode property tables; a character-class helper that starts to (e.g.
-// `char::is_numeric` for NameContinue) would otherwise end in an unwinding failure inside the table search.
-// The second character ranges over U+0080..U+00BF (lead byte 0xC2 concrete, continuation byte symbolic) and the
-// two tables are replaced by their exact values on that range (UnicodeData 15: No = ² ³ ¹ ¼ ½ ¾; Alphabetic = ª µ º).
-fn numeric_stub_latin1(c: char) -> bool {
-    matches!(c as u32, 0xB2 | 0xB3 | 0xB9 | 0xBC | 0xBD | 0xBE)
-}
-fn alphabetic_stub_latin1(c: char) -> bool {
-    matches!(c as u32, 0xAA | 0xB5 | 0xBA)
-}
-
-#[kani::proof]
-#[kani::unwind(8)]
-#[kani::stub(alloc::fmt::format, fmt_stub)]
-#[kani::stub(core::unicode::unicode_data::n::lookup, numeric_stub_latin1)]
-#[kani::stub(core::unicode::unicode_data::alphabetic::lookup, alphabetic_stub_latin1)]
-fn c03_name_then_latin1_char() {
-    let cont: u8 = kani::any();
-    kani::assume(cont >= 0x80 && cont <= 0xBF);
-    let buf = [b'a', 0xC2, cont];
-    let s = unsafe { std::str::from_utf8_unchecked(&buf[..]) };
-    assert!(lexer_agrees(&buf[..], s));
-    kani::cover!(cont == 0xB2, "superscript two after a name");
-}
